@@ -1,0 +1,11 @@
+//go:build verif
+
+package base
+
+// Contracts checked by /verif/govc (see /verif/DESIGN.md). Comment-only file.
+
+// A URL or an error, never (nil, nil); the URL is a new object (C12, C20).
+//@ func ParseURL
+//@   ensures[C12] err == nil ==> ret != nil && fresh(ret)
+//@   ensures[C12] err != nil ==> ret == nil
+//@   modifies fresh
